@@ -68,9 +68,9 @@ def build(ctx, n_rich, n_plain, maxsize):
     return progs
 
 
-def load_corpus():
+def load_corpus(directory=CORPUS):
     jobs = []
-    for f in sorted(glob.glob(os.path.join(CORPUS, "*.json"))):
+    for f in sorted(glob.glob(os.path.join(directory, "*.json"))):
         try:
             d = json.load(open(f))
         except Exception as e:  # noqa: BLE001
@@ -232,6 +232,16 @@ def selftest(ctx):
     for g in good:
         if acc2.get(str(g["id"])) != "Validated":
             raise lib.Machinery("selftest: good trace not accepted")
+    # corpus ingestion: records deposited by other checks are picked up and pass through the same monitor
+    cdir = os.path.join(ctx.workdir, "corpus")
+    os.makedirs(cdir)
+    json.dump([{"src": "@guppy\ndef f(x: int) -> int:\n    return x + 1\n", "entry": "f"},
+               {"src": "@guppy\ndef g(q: qubit @owned) -> None:\n    pass\n", "entry": "g", "experimental": False}],
+              open(os.path.join(cdir, "x.json"), "w"))
+    cres = record(load_corpus(cdir))
+    cacc, cstuck, _ = validate(ctx, cres, tag="st2")
+    if sorted(cacc.values()) != ["Rejected", "Validated"] or cstuck:
+        raise lib.Machinery(f"selftest: corpus ingestion gives {cacc} {cstuck}")
     # the validator oracle really rejects a broken package (one node removed from a compiled HUGR)
     import gp
     import runner
